@@ -173,7 +173,7 @@ CHECKS = {
              'step budget (a budget hit would be reported as possible non-termination), the returned regions are exactly the input '
              'objects, each once, with polygon and text untouched.  Division by a zero extent follows numpy scalar semantics '
              '(inf / nan, no exception); Python-float values are tracked so that a change to Python floats raises as it would.  '
-             'Pages with slanted lines: the de-skew rotation is an abstract invertible map (counterexamples of these tasks are replayed on the page made of the de-skewed boxes).  Bound: n <= 3 (quick), n = 4 and a concave variant (thorough).',
+             'Pages with slanted lines: the de-skew rotation is an abstract invertible map (counterexamples of these tasks are replayed on the page made of the de-skewed boxes).  Bound: n <= 2 fully symbolic, n = 3 with one axis symbolic (quick); all six arrangements, n = 4 with one symbolic box and a concave variant (thorough); three regions with both axes symbolic are not scheduled (about 100 min).',
         note='Trusted: z3 (linear real arithmetic), DBSCAN model (components of |a-b| <= eps, ValueError on empty input and eps <= 0), '
              'de-skew angle 0 (no or horizontal lines); non-zero de-skew runs through shapely / cv2 and is outside.',
         design='4/C12'),
